@@ -82,6 +82,7 @@ NOTES = {
     ("split_part", "value", "empty-delimiter"): "with an empty delimiter Spark returns the whole string as part 1; DuckDB splits into characters.",
     ("sha2", "raises", "numBits-224"): "see sha2 numBits-512.", ("sha2", "raises", "numBits-384"): "see sha2 numBits-512.",
     ("sha2", "raises", "numBits-512"): "sha2 raises ValueError for numBits other than 256/0; Spark supports 224/256/384/512.",
+    ("soundex", "value", "non-letter-first"): "for a first character that is not a letter Spark returns its input unchanged ('123abc'); util.soundex keeps that character and codes the rest ('1120'). Patch (sqlframe/base/util.py): after upper-casing, `if not ('A' <= s[0] <= 'Z'): return <the original string>`.",
     ("spark-session", "Column.getItem"): "on a Spark-backed session the Column key is not shifted either: element_at(col, key) is 1-based.",
     ("spark-session", "array_position"): "the COALESCE(.., 0) guard is applied on Spark too: NULL array -> 0.",
     ("spark-session", "levenshtein"): "the CASE guard is applied on Spark too: NULL inputs -> -1.",
